@@ -244,7 +244,11 @@ class SoftwareManager:
         :param session: The transport session the payload originates from.
         """
         if payload.__class__.__name__ == "PortScanPayload":
-            self.software.get("nmap").receive(payload=payload, session_id=session_id)
+            nmap = self.software.get("nmap")
+            if nmap:
+                nmap.receive(payload=payload, session_id=session_id)
+            else:
+                self.sys_log.warning("Port scan payload dropped as nmap is not installed")
             return
         main_receiver = self.port_protocol_mapping.get((port, protocol), None)
         if main_receiver:
